@@ -26,6 +26,7 @@ def run(ctx):
         ctx.sample({"trace_excerpt": [json.loads(x) for x in lines[3:8]]})
         ctx.validate("FaultTrace", t, keyfn, describe=describe, timeout=600, require_events=300)
     xportfam.quic_part(ctx, drv, "C14")
+    xportfam.pipe_part(ctx, drv, "C14")
     ctx.assumptions += [
         "fault placements are scenario classes per transport (refuse, accept-silent, no reply, half frame, garbage, FIN, RST, TLS-handshake stall, server closed the idle connection, connection killed with 5 waiters, peer stops reading with small socket buffers, and for DoQ / DoH3 a server that dies silently and comes back on the same address: stateless resets) on real loopback sockets, not every byte position",
         "deadline bound is one-sided with 1 s slack; deadlines are 300-600 ms against faults that would otherwise last 3-10 s",
